@@ -764,6 +764,10 @@ class C2Profile(ConfigBlock):
                 elif item == ";":
                     logger.debug(repr(line))
                     line.pop()  # pop ;
+                    if line and line[0] == "#":
+                        # commented out statement (`# dns_resolver "1.1.1.1";`), a comment when the text is parsed
+                        line = []
+                        continue
                     key = ".".join(stack)
                     if key in list_props:
                         value = tuple(string_token_to_bytes(x) for x in line)
